@@ -10,7 +10,8 @@ Transcribed from the *current* /repo/src on every run:
               row must be can_<name>/do_<name>); the pqueue_init/deque_init capacities
               of init(); whether each re-enqueue site tests `offset >= head_offs`
               (do_scan, do_retrieve on MORE: finding F4); whether each path that
-              drops a retrieve job also drops its unord_blk (finding F3)
+              drops a retrieve job also drops its unord_blk (finding F3); whether do_scan
+              passes over a candidate when unord_q is full (finding F9)
   process.c   the decompression slot/granule formulas of set_memory_constraints()
 
 Expressions go through lib/cparse.py and are emitted as Gallina over the
@@ -189,6 +190,8 @@ def conjuncts(e):
 
 
 DROP_LINK = r"drop_unord_link\s*\(\s*rb->unord_link\s*\)"
+# queue -> name of the static variable that holds its capacity (filled by gen_caps)
+CAP_VARS = {}
 
 
 def gen_macros(repo):
@@ -289,6 +292,7 @@ def gen_tasks(src):
 
 
 def gen_caps(src):
+    CAP_VARS.clear()
     args, body = cparse.find_function_body(src, "init")
     body = re.sub(r"#ifdef\s+KJN_LBZIP2_VERIF.*?#endif", "", body, flags=re.S)
     caps = {}
@@ -308,6 +312,21 @@ def gen_caps(src):
             "unord_q": "pqueue_init", "order_q": "deque_init", "reord_q": "pqueue_init"}
     if {k: v[0] for k, v in caps.items()} != want:
         raise ParseError("init(): queue initialisations %r" % {k: v[0] for k, v in caps.items()})
+    # a capacity may be kept in a static variable assigned in init() just before (finding F9:
+    # `unord_cap = <expr>; pqueue_init(unord_q, unord_cap);`): substitute its (single) definition
+    for q in list(caps):
+        kind, e = caps[q]
+        if e[0] == "id" and e[1] not in ("in_slots", "work_units", "out_slots") and e[1] not in CONSTS:
+            var = e[1]
+            asg = re.findall(r"\b%s\s*=\s*([^;]+);" % re.escape(var), body)
+            if len(asg) != 1:
+                raise ParseError("init(): capacity variable %s: exactly one assignment expected, found %d" % (var, len(asg)))
+            pos_asg = re.search(r"\b%s\s*=" % re.escape(var), body).start()
+            pos_use = re.search(r"\b(pqueue_init|deque_init)\s*\(\s*%s\s*," % re.escape(q), body).start()
+            if pos_asg > pos_use:
+                raise ParseError("init(): capacity variable %s is assigned after it is used" % var)
+            caps[q] = (kind, cparse.parse_expr(asg[0]))
+            CAP_VARS[q] = var
 
     def tn(e):
         k = e[0]
@@ -424,9 +443,24 @@ def gen_sites(src):
     s += "Definition requeue_scan_checks_head : bool := %s.\n" % ("true" if head_chk in cj else "false")
     # creation of the speculative job: `if (pos_le(bs->pos, parser_bs.pos) [|| bs->offset < head_offs]) { work_units++; } else {`
     nt = re.sub(r"\bTrace\s*\(\(.*?\)\)\s*;", "", body, flags=re.S)
-    m = re.search(r"\bif\s*\(([^{};]*?)\)\s*\{\s*work_units\s*\+\+\s*;\s*\}\s*else\s*\{", nt, re.S)
+    m = re.search(r"\bif\s*\(([^{};]*?)\)\s*\{\s*work_units\s*\+\+\s*;\s*\}\s*"
+                  r"(?:else\s+if\s*\(([^{};]*?)\)\s*\{\s*work_units\s*\+\+\s*;\s*\}\s*)?else\s*\{", nt, re.S)
     if not m:
-        raise ParseError("do_scan: known-pattern test `if (...) { work_units++; } else {` not found")
+        raise ParseError("do_scan: known-pattern test `if (...) { work_units++; } [else if (...) { work_units++; }] else {` not found")
+    if len(re.findall(r"work_units\s*\+\+", nt[m.start():])) != (2 if m.group(2) else 1):
+        raise ParseError("do_scan: unexpected work_units++ after the candidate test")
+    if m.group(2) is not None:
+        # finding F9: the candidate is passed over when unord_q is full; the bound must be the
+        # variable unord_q was allocated with
+        var = CAP_VARS.get("unord_q")
+        if var is None:
+            raise ParseError("do_scan: capacity test %r but unord_q is not allocated from a variable" % m.group(2).strip())
+        if cparse.parse_expr(m.group(2)) != cparse.parse_expr("size(unord_q) >= %s" % var):
+            raise ParseError("do_scan: capacity test %r is not `size(unord_q) >= %s`" % (m.group(2).strip(), var))
+        # the variable must not be written anywhere but in init()
+        if len(re.findall(r"\b%s\s*(?:=[^=]|\+\+|--|[-+*/|&^]=)" % re.escape(var), src)) != 1:
+            raise ParseError("capacity variable %s is written outside init()" % var)
+    cap_chk = m.group(2) is not None
 
     def disjuncts(e):
         if e[0] == "bin" and e[1] == "||":
@@ -438,6 +472,7 @@ def gen_sites(src):
     if known not in dj or any(d not in (known, stale) for d in dj):
         raise ParseError("do_scan: known-pattern condition %r not understood" % m.group(1).strip())
     s += "Definition scan_job_checks_head : bool := %s.\n" % ("true" if stale in dj else "false")
+    s += "Definition scan_checks_unord_cap : bool := %s.\n" % ("true" if cap_chk else "false")
     # --- do_retrieve
     _, body = cparse.find_function_body(src, "do_retrieve")
     if len(re.findall(r"enqueue\s*\(\s*retr_q", body)) != 1:
